@@ -80,5 +80,6 @@ CONFIG = dict(
                    'are only run (no panic) on every case.',
         technique='machine-checked proof in Coq over a Gallina model (canonical-map library with permutation/sortedness argument, codec '
                   'lemmas composed per result type) + model/implementation correspondence replay with extracted model and oracles '
-                  '(decoded == extracted normalise(input); extracted text-shape check)',
+                  '(decoded == extracted normalise(input); extracted text-shape check) + scale family (every size axis at 7 .. 10^5, oracle-only '
+                  'judgement where the list model is quadratic)',
     )
